@@ -217,6 +217,31 @@ func (inj *injector) randomSigners(k int) []int {
 	return out
 }
 
+// signersFor picks k distinct consensus positions that include the chain's own
+// node: an honest proposer always takes part in its own certificate, and honest
+// verifiers only answer challenges of such proposals, so these are the
+// certificates a network with fewer than a third Byzantine members can produce.
+func (inj *injector) signersFor(owner crypto.Hash, k int) []int {
+	own := -1
+	for pos, idx := range inj.order {
+		if inj.c.Nodes[idx].Id == owner {
+			own = pos
+		}
+	}
+	out := inj.randomSigners(k)
+	if own < 0 {
+		return out
+	}
+	for _, p := range out {
+		if p == own {
+			return out
+		}
+	}
+	out[inj.rng.IntN(len(out))] = own
+	sort.Ints(out)
+	return out
+}
+
 type injected struct {
 	snap    *common.Snapshot // with a valid certificate
 	tx      *common.VersionedTransaction
@@ -289,7 +314,7 @@ func (inj *injector) nextWith(chainIdx int, newRound bool, tx *common.VersionedT
 		}
 	} else {
 		k := inj.threshold() + inj.rng.IntN(inj.n-inj.threshold()+1)
-		pos := inj.randomSigners(k)
+		pos := inj.signersFor(ch.id, k)
 		sig := inj.sign(pos, s.Hash, -1)
 		s.Signature = &crypto.CosiSignature{Signature: sig, Mask: maskOf(pos)}
 	}
@@ -350,7 +375,7 @@ func (inj *injector) place(ch *injChain, round, ts uint64, tx *common.VersionedT
 	s.AddTransaction(tx.PayloadHash())
 	s.Hash = s.PayloadHash()
 	k := inj.threshold() + inj.rng.IntN(inj.n-inj.threshold()+1)
-	pos := inj.randomSigners(k)
+	pos := inj.signersFor(ch.id, k)
 	s.Signature = &crypto.CosiSignature{Signature: inj.sign(pos, s.Hash, -1), Mask: maskOf(pos)}
 	if commit {
 		ch.snaps = append(ch.snaps, &common.SnapshotWithTopologicalOrder{Snapshot: s})
